@@ -11,11 +11,11 @@ int main(void) {
 	struct A a = { 3, 17, 0, 12345, 77, 0, 1, 7, 300, 549755813887L, 0x155555555UL, 0x7fffffffffffffffLL, 123, 1073741823 };
 	struct B b = { 'x', -64, 5, -4096, 200 };
 	struct C c = { 1, 0x3fffffffffffffffUL, 1, 0x7fffffffffffffffUL, -65536 };
-	union U u;
+	union U u; { int i; for (i = 0; i < 8; ++i) u.raw[i] = 0; }
 	P(sizeof(struct A)); P(sizeof(struct B)); P(sizeof(struct C)); P(sizeof(union U)); P(_Alignof(struct B));
 	P(ga.a); P(ga.b); P(ga.c); P(ga.d); P(ga.e); P(ga.f); P(ga.g); P(ga.h); P(ga.i); P(ga.j); PU(ga.k); P(ga.l); PU(ga.m); P(ga.n);
 	P(a.a); P(a.b); P(a.c); P(a.d); P(a.e); P(a.f); P(a.g); P(a.h); P(a.i); P(a.j); PU(a.k); P(a.l); PU(a.m); P(a.n);
-	dump(&ga, sizeof ga); dump(&b, sizeof b); dump(&c, sizeof c);
+	dump(&ga, sizeof ga);   /* automatic objects are not dumped: their padding bits are unspecified */
 	P(b.a); P(b.b); P(b.s); P(b.u); P(c.a); PU(c.b); P(c.c); PU(c.d); P(c.e);
 	a.a = 5; P(a.a); a.a = -1; P(a.a); P(a.b); a.b = 33; P(a.b); P(a.a); P(a.c = 1); P(a.c); P(a.d = -1); P(a.e);
 	P(a.f = 2); P(a.g = 2); P(a.h = 9); P(a.h); P(a.i = 1023); P(a.j = 1L << 39); P(a.j); P(a.k = -1L); P(a.l = -9223372036854775807L - 1); P(a.m = -1); P(a.n = 1 << 30); P(a.n);
@@ -23,8 +23,10 @@ int main(void) {
 	P(a.a++); P(a.a); P(++a.a); P(a.b--); P(--a.b); P(a.g++); P(a.g); P(a.h--); P(a.i++); P(a.j--); P(a.k++);  P(a.c--); P(a.c);
 	P(a.b + a.a); P(a.d * 2 > 0); P(a.b - 40 < 0); P(a.m - 124 > 0); P(a.k - a.k - 1 < 0); P(sizeof(a.b + 0)); P(sizeof(a.k + 0)); P(sizeof(a.m + 0)); P((a.n & 0xfff) << 1);
 	P(-a.b); P(~a.b); P(~a.m > 0); P(~a.f); P(-a.f < 0); P(a.f - 1 < 0); P(a.i * a.i); P((a.d & 0xff) << 9 > 0);
-	dump(&a, sizeof a);
 	u.c = 0; u.a = 15; P(u.b); u.b = -2048; P(u.a); PU(u.c); u.c = 0x3ffffffffffffUL; P(u.b); P(u.a); dump(&u, sizeof u);
-	{ struct A *p = &a; p->a = -3; P(p->a); p->j = -2; P(p->j); p->k = 5; P(p->k); P((p->b = 9, p->b)); struct B arr[2] = { { 1, 2, 3, 4, 5 }, { .s = -1, .a = 63 } }; P(arr[1].s); P(arr[1].a); P(arr[0].u); P(arr[1].b); dump(arr, sizeof arr); }
+	{ struct A *p = &a; p->a = -3; P(p->a); p->j = -2; P(p->j); p->k = 5; P(p->k); P((p->b = 9, p->b)); struct B arr[2] = { { 1, 2, 3, 4, 5 }, { .s = -1, .a = 63 } }; P(arr[1].s); P(arr[1].a); P(arr[0].u); P(arr[1].b); P(arr[0].a); P(arr[0].b); P(arr[0].s); P(arr[1].u); }
+	{ int x = 2; struct { char c; int b : 4; int d : 4; unsigned e : 16; } s1 = { 1, x }; struct { short h; unsigned b : 3; unsigned z : 13; char t; } s2 = { .b = x };
+	  struct { char c; int b : 4; int d : 4; unsigned e : 16; } s3 = { .d = x }; struct { unsigned char c0, c1; long long w : 20; long long v : 20; } s4 = { 7, 8, x };
+	  P(s1.c); P(s1.b); P(s1.d); P(s1.e); P(s2.h); P(s2.b); P(s2.z); P(s2.t); P(s3.c); P(s3.b); P(s3.d); P(s3.e); P(s4.c0); P(s4.c1); P(s4.w); P(s4.v); }
 	return 0;
 }
